@@ -26,7 +26,7 @@ var corruptKinds = []string{
 	"bitflip", "truncate", "dup_line", "swap_lines", "drop_line", "conflict_markers", "junk_line", "unknown_type", "wrong_field_type",
 	"bad_timestamp", "dup_create", "binary", "empty", "whitespace", "no_final_newline", "crlf", "bom", "nul_bytes", "json_scalar_line",
 	"missing_data", "deep_nesting", "long_line_64k", "extra_fields", "blank_lines", "tombstone_first", "state_before_create", "invalid_utf8",
-	"unknown_state", "self_link", "cycle_links", "bad_link_kind", "huge_line",
+	"unknown_state", "self_link", "cycle_links", "bad_link_kind", "big_tail_no_newline", "huge_line",
 }
 
 func splitKeep(b []byte) [][]byte {
@@ -172,6 +172,15 @@ func applyCorruption(log []byte, kind string, pos int, arg string, liveID, other
 	case "huge_line":
 		n := 10*1024*1024 + 1000
 		return insert(at(len(ls)+1), `{"type":"body","ts":"`+ts+`","data":{"id":"`+liveID+`","body":"`+strings.Repeat("y", n)+`","ts":"`+ts+`"}}`+"\n")
+	case "big_tail_no_newline":
+		// a complete, valid final event of several KB that lacks its newline
+		// (hand edit, merge, or a write cut before its very last byte)
+		n := []int{4000, 4200, 9000, 70000}[pos%4]
+		base := bytes.TrimRight(log, "\n")
+		if len(base) > 0 {
+			base = append(base, '\n')
+		}
+		return append(base, []byte(`{"type":"body","ts":"`+ts+`","data":{"id":"`+liveID+`","body":"`+strings.Repeat("z", n)+`","ts":"`+ts+`"}}`)...)
 	case "extra_fields":
 		return insert(at(len(ls)+1), `{"type":"state","ts":"`+ts+`","data":{"id":"`+liveID+`","state":"blocked","ts":"`+ts+`","future":true},"v":2}`+"\n")
 	case "blank_lines":
